@@ -1,7 +1,7 @@
 (* Props/C10.v — String and key quoting is exact for every string in every offered style. *)
 From TV Require Import Base.Prelude Base.Utf8 Base.Winnow Gen.Consts.
 From TV Require Import Model.Strings Model.Tree Model.Parse Model.Document Model.Write.
-From TV Require Import Proofs.StringsRTDefs Proofs.StringsRTWrite Proofs.StringsRTTop.
+From TV Require Import Proofs.StringsRTDefs Proofs.StringsRTWrite Proofs.StringsRTTop Proofs.StringsRTDoc.
 
 (* every value style: the token is a complete `string` and a complete `value` (Value::from_str),
    decoding to exactly s *)
@@ -39,6 +39,17 @@ Print Assumptions C10_key_styles_in_context.
 Theorem C10_default_total : forall s, write_string StDefault s <> None /\ write_key KDefault s <> None.
 Proof. exact default_total. Qed.
 Print Assumptions C10_default_total.
+
+(* the default key token, ` = `, the default value token and a newline are a document whose root
+   table holds exactly the one entry k -> string v *)
+Theorem C10_in_document : forall k v tk tv,
+  utf8_valid_b k = true -> utf8_valid_b v = true ->
+  write_key KDefault k = Some tk -> write_string StDefault v = Some tv ->
+  exists d kk rp dc,
+    parse_document (tk ++ [x20; x3d; x20] ++ tv ++ [x0a]) = POk d /\
+    t_items (doc_root d) = [(kk, IValue (VScalar (SString v) rp dc))] /\ k_key kk = k.
+Proof. exact in_document. Qed.
+Print Assumptions C10_in_document.
 
 (* FINDING: with overflow checks on, the metrics pass overflows its u8 counter on 256 consecutive
    quote characters (TomlStringBuilder::new panics) *)
